@@ -167,6 +167,76 @@ T('c04_twin_conflicts_ge2', ['C04'],
 T('c04_twin_set_intersection', ['C04'],
   (A, '        resource_conflicts = [r for r in RESERVED_ARGS if r in self.resources]', '        resource_conflicts = set(RESERVED_ARGS) & set(self.resources)'))
 
+# ------------------------------------------------------------------ C05
+B('c05_drop_dollar', ['C05'], 'R05.d', (R, "    regex = re.compile(full_pattern + '$')", "    regex = re.compile(full_pattern)"))
+B('c05_swap_arity_flag', ['C05'], 'R05.b', (R, "                 '+': True,\n                 '*': True}", "                 '+': True,\n                 '*': False}"))
+B('c05_swap_optionality', ['C05'], 'R05.b', (R, "                       '+': False,\n                       '*': True}", "                       '+': True,\n                       '*': True}"))
+B('c05_match_path_no_valueerror', ['C05'], 'R05.d', (R, '        except (KeyError, TypeError, ValueError):\n            return None', '        except (KeyError, TypeError):\n            return None'))
+B('c05_no_duplicate_check', ['C05'], 'R05.c', (R, "        if name in var_converter_map:\n            raise InvalidPattern('duplicate path binding %s' % name)\n", ''))
+B('c05_str_consumes_slash', ['C05'], 'R05.a', (R, "_STR_PATTERN = r'[^/]+'", "_STR_PATTERN = r'.+'"))
+B('c05_int_allows_empty', ['C05'], 'R05.a', (R, "_INT_PATTERN = r'[+-]?\\ *[0-9]+'", "_INT_PATTERN = r'[+-]?\\ *[0-9]*'"))
+B('c05_int_no_negative', ['C05'], 'R05.a', (R, "_INT_PATTERN = r'[+-]?\\ *[0-9]+'", "_INT_PATTERN = r'[0-9]+'"))
+B('c05_float_pattern_for_int', ['C05'], 'R05.a', (R, "DEFAULT_CONVS = [('int', int, _INT_PATTERN),", "DEFAULT_CONVS = [('int', int, _FLOAT_PATTERN),"))
+B('c05_strict_sep_everywhere', ['C05'], 'R05.d', (R, "    sep = '/+'\n    if mode == S_STRICT:\n        sep = '/'\n", "    sep = '/'\n"))
+B('c05_trailing_in_strict', ['C05'], 'R05.d', (R, "    if mode != S_STRICT:\n        full_pattern += '/*'\n", "    full_pattern += '/*'\n"))
+B('c05_multi_keeps_first', ['C05'], 'R05.e', (R, "return [converter(v) for v in value.split('/')[1:]]", "return [converter(v) for v in value.split('/')]"))
+B('c05_optional_none_lost', ['C05'], 'R05.e', (R, '        if not value and optional:\n            return None\n', ''))
+B('c05_flags_crossed', ['C05'], 'R05.b', (R, '                                                  multi=multi,\n                                                  optional=optional)', '                                                  multi=optional,\n                                                  optional=multi)'))
+B('c05_colon_not_normalised', ['C05'], 'R05.b', (R, "        if op == ':':\n            op = ''\n", ''))
+B('c05_seg_tmpl_sep_outside', ['C05'], 'R05', (R, "_SEG_TMPL = '(?P<{name}>({sep}{pattern}){arity})'", "_SEG_TMPL = '(?P<{name}>{sep}({pattern}){arity})'"))
+B('c05_route_skips_validation', ['C05'], 'R05.c', (R, '        _compile_path_pattern(pattern, self.slash_mode)  # checking pattern\n', ''))
+B('c05_leading_slash_unchecked', ['C05'], 'R05.c', (R, "    if not pattern.startswith('/'):\n        raise InvalidPattern('URL path patterns must start with a forward'\n                             ' slash (got %r)' % pattern)\n", ''))
+T('c05_twin_int_digits', ['C05'], (R, "_INT_PATTERN = r'[+-]?\\ *[0-9]+'", "_INT_PATTERN = r'[+-]?\\ *\\d+'"))
+T('c05_twin_tighter_int', ['C05'], (R, "_INT_PATTERN = r'[+-]?\\ *[0-9]+'", "_INT_PATTERN = r'[+-]?[0-9]+'"))
+T('c05_twin_seg_noncapturing', ['C05'], (R, "_SEG_TMPL = '(?P<{name}>({sep}{pattern}){arity})'", "_SEG_TMPL = '(?P<{name}>(?:{sep}(?:{pattern})){arity})'"))
+
+# ------------------------------------------------------------------ C09
+B('c09_wrong_code', ['C09'], 'R09.a', (E, 'class Gone(BadRequest):\n    code = 410', 'class Gone(BadRequest):\n    code = 409'))
+B('c09_wrong_family', ['C09'], 'R09.a', (E, 'class BadGateway(InternalServerError):', 'class BadGateway(BadRequest):'))
+B('c09_swap_mime_formats', ['C09'], 'R09.b', (E, "MIME_SUPPORT_MAP = {'text/html': 'html',\n                    'application/json': 'json',", "MIME_SUPPORT_MAP = {'text/html': 'json',\n                    'application/json': 'html',"))
+B('c09_fallback_mismatch', ['C09'], 'R09.b', (E, "            fmt_name, mimetype = 'text', 'text/plain'", "            fmt_name = 'text'"))
+B('c09_no_quote_escape', ['C09'], 'R09.c', (E, '                ret[k] = html_escape(v, True)', '                ret[k] = html_escape(v, False)'))
+B('c09_except_path_unescaped', ['C09'], 'R09.c', (E, '                ret[k] = html_escape(repr(v), True)', '                ret[k] = repr(v)'))
+B('c09_html_uses_raw_dict', ['C09'], 'R09.c', (E, "    def to_html(self):\n        params = self.to_escaped_dict()", "    def to_html(self):\n        params = self.to_dict()"))
+B('c09_xml_uses_raw_dict', ['C09'], 'R09.c', (E, "        # TODO: generically create xml based on escaped dictionary\n        params = self.to_escaped_dict()", "        params = self.to_dict()"))
+B('c09_template_raw_exc_value', ['C09'], 'R09.d', (CE, '<pre class="exception_value">{exc_value}</pre>', '<pre class="exception_value">{exc_value|s}</pre>'))
+B('c09_template_raw_local', ['C09'], 'R09.d', (CE, '<tr><td>{$key}</td><td>{$value}</td></tr>', '<tr><td>{$key}</td><td>{$value|s}</td></tr>'))
+B('c09_status_class_code', ['C09'], 'R09.a', (E, '                                            status=self.code,', '                                            status=type(self).code,'))
+B('c09_json_drops_fields', ['C09'], 'R09.e', (E, "        ret = {'detail': self.detail,\n               'message': self.message,\n               'code': self.code,\n               'error_type': self.error_type}", "        ret = {'detail': self.detail,\n               'message': self.message,\n               'code': self.code}"))
+B('c09_render_error_other_table', ['C09'], 'R09.b', (E, '        best_match = request.accept_mimetypes.best_match(MIME_SUPPORT_MAP)\n        _error.adapt(best_match)\n        return _error\n\n    def uncaught_to_response', "        best_match = request.accept_mimetypes.best_match(['text/html', 'application/json'])\n        _error.adapt(best_match)\n        return _error\n\n    def uncaught_to_response"))
+B('c09_skip_none_fields', ['C09'], 'R09.c', (E, "            if v is None:\n                ret[k] = ''\n                continue", "            if v is None:\n                continue"))
+T('c09_twin_quote_keyword', ['C09'], (E, '                ret[k] = html_escape(v, True)', '                ret[k] = html_escape(v, quote=True)'))
+
+# ------------------------------------------------------------------ C10
+B('c10_bind_all_skips_first', ['C10'], 'R10.a', (A, '        for rt in self.app.routes:\n            if isinstance(rt, NullRoute):', '        for rt in self.app.routes[1:]:\n            if isinstance(rt, NullRoute):'))
+B('c10_bind_all_reversed', ['C10'], 'R10.a', (A, '        for rt in self.app.routes:\n            if isinstance(rt, NullRoute):', '        for rt in reversed(self.app.routes):\n            if isinstance(rt, NullRoute):'))
+B('c10_prefix_not_applied', ['C10'], 'R10.b', (R, '        self.pattern = prefix + route.pattern', '        self.pattern = route.pattern'))
+B('c10_prefix_uses_unbound_pattern', ['C10'], 'R10.b', (R, '        self.pattern = prefix + route.pattern', '        self.pattern = prefix + unbound_route.pattern'))
+B('c10_prefix_keyword_missing', ['C10'], 'R10.a', (A, "        kwargs['prefix'] = self.prefix\n", ''))
+B('c10_render_error_from_route', ['C10'], 'R10.d', (R, "            render_error = getattr(app.error_handler, 'render_error', None)", "            render_error = getattr(route, 'render_error', None) or getattr(app.error_handler, 'render_error', None)"))
+B('c10_rebind_render_default_true', ['C10'], 'R10.e', (A, '    def __init__(self, prefix, app, rebind_render=False, inherit_slashes=True):', '    def __init__(self, prefix, app, rebind_render=True, inherit_slashes=True):'))
+B('c10_explicit_render_loses', ['C10'], 'R10.e', (R, '        if callable(unbound_route.render):\n            # explicit callable renders always take precedence', '        if callable(unbound_route.render) and not rebind_render:\n            # explicit callable renders always take precedence'))
+B('c10_inner_factory_wins', ['C10'], 'R10.e', (R, 'render_factory = first(reversed(render_factory_list), key=callable)', 'render_factory = first(render_factory_list, key=callable)'))
+B('c10_app_resources_on_top_at_bind', ['C10', 'C02'], {'C10': 'R10.c', 'C02': 'R02.c'},
+  (R, "        self.resources = dict(app_resources)\n        self.resources.update(getattr(route, 'resources', {}))", "        self.resources = dict(getattr(route, 'resources', {}))\n        self.resources.update(app_resources)"))
+B('c10_application_is_innermost', ['C10'], 'R10',
+  (R, "        self.bound_apps = getattr(route, 'bound_apps', []) + [app]", "        self.bound_apps = [app] + getattr(route, 'bound_apps', [])"))
+T('c10_twin_bind_render_reordered', ['C10'], (R, 'bind_render = rebind_render or route.render is _noop_render or not callable(route.render)', 'bind_render = not callable(route.render) or rebind_render or route.render is _noop_render'))
+
+# ------------------------------------------------------------------ C18
+B('c18_secret_test_inverted', ['C18'], 'R18.a', (META, "        if 'secret' in key:\n            trunc_val = '[REDACTED]'\n        else:\n            trunc_val = _trunc(repr(val))", "        if 'secret' not in key:\n            trunc_val = '[REDACTED]'\n        else:\n            trunc_val = _trunc(repr(val))"))
+B('c18_value_on_both_branches', ['C18'], 'R18.a', (META, "            trunc_val = '[REDACTED]'\n", "            trunc_val = '[REDACTED %d chars]' % len(repr(val))\n"))
+B('c18_raw_value_listed', ['C18'], 'R18.a', (META, "        ret.append({'key': key, 'value': trunc_val})", "        ret.append({'key': key, 'value': trunc_val, 'type': type(val).__name__, 'raw': val})"))
+B('c18_resources_dumped', ['C18'], 'R18.a', (META, "        return {'resources': get_resource_info(_application)}", "        return {'resources': get_resource_info(_application), 'all': dict(_application.resources)}"))
+B('c18_app_in_context', ['C18'], 'R18.a', (META, "        return {'middlewares': get_mw_infos(_application)}", "        return {'middlewares': get_mw_infos(_application), 'app': _application}"))
+B('c18_repr_shows_key', ['C18'], 'R18.b', (CK, "        return ('%s(arg_name=%r, cookie_name=%r)'\n                % (cn, self.arg_name, self.cookie_name))", "        return ('%s(arg_name=%r, cookie_name=%r, secret_key=%r)'\n                % (cn, self.arg_name, self.cookie_name, self.secret_key))"))
+B('c18_mw_dict_dumped', ['C18'], 'R18.b', (META, "        cur['repr'] = repr(mw)\n", "        cur['repr'] = repr(mw)\n        cur['attrs'] = repr(mw.__dict__)\n"))
+B('c18_get_context_unprotected', ['C18'], 'R18.c', (META, "            try:\n                peri_ctx = inject(peri.get_context, kwargs)\n            except Exception as e:\n                peri_ctx = {'exc_content': repr(e)}\n", "            peri_ctx = inject(peri.get_context, kwargs)\n"))
+B('c18_section_reraises', ['C18'], 'R18.c', (META, "            except Exception as e:\n                cur['exc_content'] = repr(e)\n", "            except Exception as e:\n                cur['exc_content'] = repr(e)\n                raise\n"))
+B('c18_template_raw_value', ['C18'], 'R18.d', ('clastic/meta_resource_section.html', '{.value}', '{.value|s}'))
+B('c18_base_raw_title', ['C18'], 'R18.d', ('clastic/meta_base.html', '<h1 class="page_title">{page_title}</h1>', '<h1 class="page_title">{page_title|s}</h1>'))
+T('c18_twin_secret_lower', ['C18'], (META, "        if 'secret' in key:", "        if 'secret' in key.lower():"))
+
 # ------------------------------------------------------------------ C06
 B('c06_sort_routes', ['C06', 'C11'], {'C06': 'R06.a', 'C11': 'R11.c'},
   (A, '        for br in bound_routes:\n            self.routes.insert(index, br)\n            index += 1\n        return\n',
